@@ -77,6 +77,11 @@ def nest(depth, how):
             inner = varint((tag << 3) | 3) + inner + varint((tag << 3) | 4)
         elif how == "unknown-len":
             inner = varint((19002 << 3) | 2) + varint(len(inner)) + inner
+        elif how == "known-group":      # KGroup.deep = 16 (group), runtime kinds
+            inner = varint((16 << 3) | 3) + (inner if _ else [0x18, 0x01]) + varint((16 << 3) | 4)
+        elif how == "btree-map-value":  # KBtree.c = 3: map<uint64, KLeaf>; nesting continues through an undeclared field of KLeaf
+            ent = [0x08, 0x01, 0x12] + varint(len(inner)) + inner
+            inner = [0x1a] + varint(len(ent)) + ent
     return inner
 
 
@@ -114,6 +119,7 @@ def run(rep, tier, seed, replay):
                         vb.append(bb)
                         break
                 fl.append(("overwrite-len", [mk["pos"], v], enc[:mk["pos"]] + vb + enc[mk["pos"] + mk["w"]:]))
+        fl += list(faults.pb_payload_faults(enc))
         for kind, detail, data in fl:
             add(path, "decode", data, {"site": "generated", "fault": kind, "detail": detail, "msg": cs["ty"], "schema": cs["sid"], "expect": None})
             if kind != "bitflip":
@@ -133,6 +139,13 @@ def run(rep, tier, seed, replay):
     # nesting 1..300 through the recursive message of each schema, and through unknown groups / payloads
     depths = [1, 2, 50, 99, 100, 101, 102, 150, 300] if tier == "quick" else list(range(1, 301))
     for sch in pss:
+        if sch.get("runtime"):
+            path = gen.find_type(punits, sch["name"], "KGroup")
+            for d in depths:
+                # a group field costs one level of the budget per nesting level
+                exp = "ok" if d <= 90 else ("err" if d > RECURSION_LIMIT + 1 else "any")
+                add(path, "decode", nest(d, "known-group"), {"site": "nesting:known-group", "fault": "nest", "detail": d, "msg": "KGroup", "schema": sch["name"], "expect": exp})
+            continue
         rec = [m for m in sch["messages"] if m["name"].startswith("Rec")][0]
         path = gen.find_type(punits, sch["name"], rec["name"])
         for how in ("next", "kids", "named", "unknown-group", "unknown-len"):
@@ -184,6 +197,6 @@ def run(rep, tier, seed, replay):
         "samples": [{"meta": meta[len(meta) // 2], "input": reqs[len(meta) // 2]["input"][:40]}],
         "largest_single_allocation_observed": maxalloc, "violations_before_known_filter": bad, "messages_faulted": len(canon), "exhaustive": False,
     }
-    rep.assumptions = ["inputs are spec-derived; the runtime-only codecs (groups as fields, wrapper types) are reached only through unknown-field skipping",
+    rep.assumptions = ["inputs are spec-derived; the runtime-only codecs (String / Vec<u8> targets, packed encoders, btree maps, groups as fields, wrapper messages) are exercised through the hand-written messages of harness/gencases/src/pbkinds.rs",
                        "recursion budget as built: a message nested more than 100 levels below the top-level message is an error, up to 100 it decodes"]
     return "fault_enumeration"
